@@ -354,9 +354,10 @@ pub fn generate(rng: &mut Rng, cfg: &Config) -> Program {
         let name = format!("g_res{}", i);
         let mut decl = String::new();
         let group = if rng.chance(1, 3) { Some(rng.below(4) as u32) } else { None };
-        let can_array = !kind.starts_with("ConstantBuffer") && !kind.contains("Address") && !kind.starts_with("Raytracing");
+        let can_array = !kind.starts_with("ConstantBuffer") && !kind.starts_with("Raytracing");
         let array = if rng.chance(1, 5) && can_array { Some(1 + rng.below(4)) } else { None };
-        let bindless = array.is_some() && rng.chance(1, 3);
+        // (no bindless tables of buffer addresses)
+        let bindless = array.is_some() && !kind.contains("Address") && rng.chance(1, 3);
         let make_static = kind == "SamplerState" && array.is_none() && (rng.chance(1, 2) || static_sampler_error_pending);
         // a static sampler must not name a register slot
         let style = if make_static { rng.below(2) } else { rng.below(3) };
